@@ -124,6 +124,25 @@ pub fn run_c09(out: &mut Out, rng: &mut Rng, tier: Tier) -> String {
     }
     histories(out, rng, n, len);
     crate::c08::reshape_huge_zst(out);
+    // a resize that fails by unwinding (the k-th `T::default` of a growing resize panics): the matrix
+    // is exactly as before; a panic in the destructor of a tail element does not undo the shrink
+    for (r0, c0) in [(0usize, 0usize), (1, 1), (2, 2), (2, 3), (3, 1), (0, 3)] {
+        for order in ORDERS {
+            for (r1, c1) in [(3usize, 3usize), (1, 2), (4, 2), (2, 0), (2, 3)] {
+                out.case(&format!("resize unwinding {r0}x{c0}{} -> {r1}x{c1}", ord_ch(order)));
+                out.nontrivial();
+                let callbacks = (r1 * c1).abs_diff(r0 * c0) as u64;
+                for k in 0..=callbacks {
+                    let mut w = World::<Tok>::new(out);
+                    w.new_matrix(out, 0, order, r0, c0, 1);
+                    w.fresize(out, 0, k, r1, c1);
+                    // the survivor is a normal matrix: it can be resized again
+                    w.resize(out, 0, r0 + 1, c0 + 1);
+                    w.drop_reg(out, 0);
+                }
+            }
+        }
+    }
     for &(nr, nc) in &LARGE[..3] {
         for order in ORDERS {
             out.case(&format!("large reshape / resize shape={nr}x{nc} order={}", ord_ch(order)));
